@@ -34,7 +34,7 @@ def fj(sets=None, flavour="O2", weight=1.0, tiers=("quick", "thorough")):
 
 SYNC_SHRINK = {"mode": 0, "span": 1, "nused": 1, "nops": 1, "dtor_pm": 1000, "set_pm": 1000, "null_pm": 0, "exitmode": 0, "nworkers": 1, "yield_pm": 0, "parent_first": 0, "nthreads": 1, "nacq": 1, "nmutex": 1, "try_pm": 0, "timed_pm": 0,
                "cs_points": 0, "helper_pm": 0, "np": 1, "nc": 1, "cap": 1, "k": 1, "nwaiters": 1, "rounds": 1, "n": 1,
-               "racer": -1, "ndeccers": 1, "late": 0, "items": 1, "pairs": 1, "readers": 0, "ncallers": 1, "nctl": 1, "ncycles": 1, "maxw": 1, "race": 0, "ncalls": 1, "nsib": 0, "hold": 0, "various": 0, "with_results": 0, "with_ids": 0, "with_attrs": 0, "nested": 0, "ntasks": 1, "len": 0, "step": 1, "form": 0, "grain": 1, "first": 0}
+               "racer": -1, "ndeccers": 1, "late": 0, "items": 1, "pairs": 1, "readers": 0, "ncallers": 1, "nctl": 1, "ncycles": 1, "maxw": 1, "race": 0, "ncalls": 1, "nsib": 0, "hold": 0, "various": 0, "with_results": 0, "with_ids": 0, "with_attrs": 0, "nested": 0, "ntasks": 1, "len": 0, "step": 1, "form": 0, "grain": 1, "first": 0, "arrwords": 32}
 
 def sy(cls, sets=None, flavour="O2", weight=1.0, tiers=("quick", "thorough")):
     return {"bin": "mvh", "cls": cls, "sets": sets or {}, "flavour": flavour, "weight": weight, "tiers": tiers, "shrink": SYNC_SHRINK}
@@ -95,4 +95,7 @@ PROPS = {
                      sy("parfor", flavour="asan", weight=1), sy("taskgroup", flavour="O0", weight=1)],
             "relevant_probes": ["p_steal_hit", "p_join_next", "p_join_sched", "p_finish_waiter"],
             "rule": "each evaluation is one simulated execution of a bulk helper call (n in {0,1,2,3,5,8,13,100,1000}, seeded stride/NULL-array/attribute combinations, guard bytes around every slot), a task_group history (1..40 run() calls, nested groups, reuse after wait) or a parallel_for over a seeded (first,len,step,grain) incl. empty and reversed ranges; non-trivial = a cross-worker preemption happened and (a steal or a blocking join occurred | the range had <= 1 element); distinct = distinct event signatures"},
+    "C03": {"jobs": [sy("regs", weight=4), sy("regs", flavour="O0", weight=3), sy("regs", flavour="asan", weight=1)],
+            "relevant_probes": ["p_steal_hit", "p_block", "p_entry_child_first", "p_entry_parent_first", "p_finish_waiter", "p_finish_next", "p_finish_sched"],
+            "rule": "each evaluation is one simulated execution of 2..12 probe threads that run 3..40 switching operations each (5 yield flavours, child-first and attribute creation, blocking and non-blocking join, contended mutex, usleep, barrier, cond-based barrier, uncond hand-off) through an assembly stub that loads patterns into rbx, rbp, r12-r15 and a 256 B..4 KiB stack array and compares afterwards; every simulator hook additionally asserts a 16-byte aligned frame; non-trivial = a cross-worker preemption happened and at least one probe operation resumed on another worker; distinct = distinct event signatures"},
 }
